@@ -431,7 +431,7 @@ func c01Body(c *Ctx, m *Module) {
 	urc := m.Func("internal/upload", "uploader.uploadReportContents")
 	ur := m.Func("internal/upload", "uploader.uploadReport")
 	for _, cs := range callsIn(urc, "net/http.Post") {
-		a := cs.Common().Args
+		a := argsOf(cs)
 		body := describe(a[2])
 		r.Check("C01.body", "uploadReportContents/posted body", m.Pos(cs.Pos()), body == "bytes.NewReader(param:buf)", "the body posted must be exactly the buf parameter; got "+body)
 		url := describe(a[0])
@@ -440,7 +440,7 @@ func c01Body(c *Ctx, m *Module) {
 		r.Check("C01.body", "uploadReportContents/URL", m.Pos(cs.Pos()), okURL, "the URL is the configured server plus the report's date only; got "+url)
 	}
 	for _, cs := range callsIn(ur, "(*internal/upload.uploader).uploadReportContents") {
-		a := cs.Common().Args
+		a := argsOf(cs)
 		d := describe(a[2])
 		r.Check("C01.body", "uploadReport/bytes of the ready file", m.Pos(cs.Pos()), d == "os.ReadFile(param:fname)#0" && a[1] == ssa.Value(ur.Params[1]),
 			"the buffer passed on must be os.ReadFile(fname) of the very file name passed on; got "+d)
@@ -460,7 +460,7 @@ func c01Body(c *Ctx, m *Module) {
 	}
 	var uploadName ssa.Value
 	for _, cs := range callsIn(cr, "internal/upload.exclusiveWrite") {
-		a := cs.Common().Args
+		a := argsOf(cs)
 		if uploadBytes != nil && dependsOn(a[1], uploadBytes, 6) {
 			uploadName = a[0]
 			r.Check("C01.body", "createReport/filtered bytes written exclusively", m.Pos(cs.Pos()), true, "exclusiveWrite("+describe(a[0])+", marshalled upload report)")
